@@ -6,7 +6,8 @@ State = the C struct: sentinels `head`/`tail` and the heap nodes (`mem`), the
 optional node pool (counters only) and `size`. Nodes are addressed by `Ref.node k`
 where `k` numbers the allocations (the harness numbers the nodes it receives the
 same way). Every pointer assignment of the C functions is one `setPrev`/`setNext`
-here, in the same order, with the same re-reads.
+(in `DMem.linkBefore` / `linkAfter` / `unlink`), in the same order, with the same
+re-reads.
 -/
 namespace MgModel.C11.LL
 
@@ -35,12 +36,7 @@ def allocateNode (s : LL) : LL × Ref :=
 
 /-- `muggle_linked_list_free_node` -/
 def freeNode (s : LL) (node : Ref) : Except Err LL := do
-  let c ← s.mem.get node
-  let p ← deref c.prev
-  let m ← s.mem.setNext p c.next            -- node->prev->next = node->next
-  let c ← m.get node
-  let n ← deref c.next
-  let m ← m.setPrev n c.prev                -- node->next->prev = node->prev
+  let m ← s.mem.unlink node
   let m ← m.free node
   pure { mem := m, pool := s.pool.map Pool.free, size := (s.size + 2 ^ 64 - 1) % 2 ^ 64 }
 
@@ -117,13 +113,7 @@ def insert (s : LL) (node : Option Ref) (data : Val) : Except Err (LL × Ref) :=
   let node ← match node with
     | some n => pure n
     | none => deref m.head.next
-  let c ← m.get node
-  let p ← deref c.prev
-  let m ← m.setNext p (some nw)             -- node->prev->next = new_node
-  let c ← m.get node
-  let m ← m.setPrev nw c.prev               -- new_node->prev = node->prev
-  let m ← m.setNext nw (some node)          -- new_node->next = node
-  let m ← m.setPrev node (some nw)          -- node->prev = new_node
+  let m ← m.linkBefore node nw
   pure ({ s with mem := m }, nw)
 
 /-- `muggle_linked_list_append`: link a new node after `node` (`NULL` = after the last) -/
@@ -133,13 +123,7 @@ def append (s : LL) (node : Option Ref) (data : Val) : Except Err (LL × Ref) :=
   let node ← match node with
     | some n => pure n
     | none => deref m.tail.prev
-  let c ← m.get node
-  let n ← deref c.next
-  let m ← m.setPrev n (some nw)             -- node->next->prev = new_node
-  let c ← m.get node
-  let m ← m.setNext nw c.next               -- new_node->next = node->next
-  let m ← m.setPrev nw (some node)          -- new_node->prev = node
-  let m ← m.setNext node (some nw)          -- node->next = new_node
+  let m ← m.linkAfter node nw
   pure ({ s with mem := m }, nw)
 
 /-- `muggle_linked_list_remove`: returns the following node (`none` = NULL) -/
@@ -153,7 +137,7 @@ def remove (s : LL) (node : Ref) (fr : Bool) : Except Err (LL × Option Ref × L
 def toList (s : LL) : Except Err (List (Ref × Val)) := do
   let first ← deref s.mem.head.next
   let refs ← s.mem.walkFwd (s.mem.cells.length + 1) first
-  refs.mapM (fun r => do let c ← s.mem.get r; pure (r, c.val))
+  refs.mapM s.mem.readCell
 
 /-- backward traversal: the nodes from `tail.prev` to `head` -/
 def toListRev (s : LL) : Except Err (List Ref) := do
@@ -164,39 +148,59 @@ def toListRev (s : LL) : Except Err (List Ref) := do
 
 abbrev Spec := List (Ref × Val)
 
-/-- position of a handle -/
-def specPos (l : Spec) (r : Ref) : Option Nat := (l.map (·.1)).idxOf? r
+/-- put `x` before the element with handle `n` -/
+def insBefore (n : Ref) (x : Ref × Val) : Spec → Spec
+  | [] => []
+  | a :: l => if a.1 = n then x :: a :: l else a :: insBefore n x l
+
+/-- put `x` after the element with handle `n` -/
+def insAfter (n : Ref) (x : Ref × Val) : Spec → Spec
+  | [] => []
+  | a :: l => if a.1 = n then a :: x :: l else a :: insAfter n x l
+
+/-- handle of the element following `n` -/
+def succOf (n : Ref) : Spec → Option Ref
+  | [] => none
+  | a :: l => if a.1 = n then l.head?.map (·.1) else succOf n l
+
+/-- handle of the element preceding `n` -/
+def predOf (n : Ref) : Spec → Option Ref
+  | [] => none
+  | [_] => none
+  | a :: b :: l => if b.1 = n then some a.1 else predOf n (b :: l)
+
+/-- datum stored under handle `n` -/
+def dataOf (n : Ref) : Spec → Option Val
+  | [] => none
+  | a :: l => if a.1 = n then some a.2 else dataOf n l
 
 /-- insert before handle `node` (`none`: at the front) -/
-def specInsert (l : Spec) (node : Option Ref) (nw : Ref) (v : Val) : Option Spec :=
+def specInsert (l : Spec) (node : Option Ref) (nw : Ref) (v : Val) : Spec :=
   match node with
-  | none => some ((nw, v) :: l)
-  | some n => (specPos l n).map (fun k => l.take k ++ (nw, v) :: l.drop k)
+  | none => (nw, v) :: l
+  | some n => insBefore n (nw, v) l
 
 /-- insert after handle `node` (`none`: at the back) -/
-def specAppend (l : Spec) (node : Option Ref) (nw : Ref) (v : Val) : Option Spec :=
+def specAppend (l : Spec) (node : Option Ref) (nw : Ref) (v : Val) : Spec :=
   match node with
-  | none => some (l ++ [(nw, v)])
-  | some n => (specPos l n).map (fun k => l.take (k + 1) ++ (nw, v) :: l.drop (k + 1))
+  | none => l ++ [(nw, v)]
+  | some n => insAfter n (nw, v) l
 
 /-- remove handle `node`: new sequence, the following handle, the freed data -/
-def specRemove (l : Spec) (node : Ref) (fr : Bool) : Option (Spec × Option Ref × List Val) :=
-  (specPos l node).map (fun k =>
-    (l.eraseIdx k, (l[k + 1]?).map (·.1),
-      match l[k]? with
-      | some (_, v) => if fr ∧ v ≠ 0 then [v] else []
-      | none => []))
+def specRemove (l : Spec) (node : Ref) (fr : Bool) : Spec × Option Ref × List Val :=
+  (l.filter (fun a => a.1 ≠ node), succOf node l,
+    match dataOf node l with
+    | some v => if fr ∧ v ≠ 0 then [v] else []
+    | none => [])
 
-def specNext (l : Spec) (node : Ref) : Option (Option Ref) :=
-  (specPos l node).map (fun k => (l[k + 1]?).map (·.1))
+def specNext (l : Spec) (node : Ref) : Option Ref := succOf node l
+def specPrev (l : Spec) (node : Ref) : Option Ref := predOf node l
 
-def specPrev (l : Spec) (node : Ref) : Option (Option Ref) :=
-  (specPos l node).map (fun k => if k = 0 then none else (l[k - 1]?).map (·.1))
-
-def specFind (l : Spec) (node : Option Ref) (v : Val) : Option (Option Ref) :=
+/-- first handle at or after `node` (`none`: from the front) whose datum is `v` -/
+def specFind (l : Spec) (node : Option Ref) (v : Val) : Option Ref :=
   match node with
-  | none => some ((l.find? (·.2 = v)).map (·.1))
-  | some n => (specPos l n).map (fun k => ((l.drop k).find? (·.2 = v)).map (·.1))
+  | none => (l.find? (·.2 = v)).map (·.1)
+  | some n => ((l.dropWhile (fun a => a.1 ≠ n)).find? (·.2 = v)).map (·.1)
 
 def specClear (l : Spec) (fr : Bool) : Spec × List Val :=
   ([], if fr then (l.map (·.2)).filter (· ≠ 0) else [])
